@@ -109,7 +109,7 @@ CHECKS = {
     ),
     "C04": dict(
         technique="TLA+ spec OpPairs (TLC exhaustive over operation pairs x targets) + real commute() answers judged by TLC (TracePairs)",
-        text="TLC enumerates every ordered pair (existing, new) over the operation menus (calculation, all projections, 10 predicates, deduplication, 9+21 sort-term lists, 7+45 slices) and proves the commutation law on the code-shaped Commute rules for all 85 targets (<=3 rows over a,b in 0..1); for every pair the REAL new.commute(existing) is called and its answer (first, second, done) is handed back to TLC, which interprets it with the reference semantics over every target: a sound answer that differs from the model passes (reported as drift), an unsound one is a violation. Companion configurations re-derive findings F2 (open), F10 and F6 (fixed) as TLC counterexamples.",
+        text="TLC enumerates every ordered pair (existing, new) over the operation menus (calculation, all projections, 10 predicates, deduplication, 9+21 sort-term lists, 7+45 slices) and proves the commutation law on the code-shaped Commute rules for all 85 targets (<=3 rows over a,b in 0..1); for every pair the REAL new.commute(existing) is called and its answer (first, second, done) is handed back to TLC, which interprets it with the reference semantics over every target: a sound answer that differs from the model passes (reported as drift), an unsound one is a violation. Companion configurations re-derive findings F2 (open), F10 and F6 (fixed) as TLC counterexamples. Mode 'joins': the NEW operation is a resolved partial join (five fixed operands incl. a deduplication projected onto one column, both sides, three predicates) over every existing operation; the real PartialJoin.commute answers are judged by TLC as multisets (a join has no row order of its own). Companions PairsKF20 / PairsKF21 re-derive the fixed findings F20 / F21.",
         design_ref="§6 C04",
         note="bounded: schema {a,b}+calculated tags, values 0..1, targets <=3 rows; join pairs are covered by the multi-engine/SQL specs; tag reuse is out of contract and not generated",
     ),
